@@ -6,7 +6,8 @@ open Proto C03
    atom  := [ key [ [attrname val]* ] ]
    val   := - | int | [ int ] (float, units 1e-12) | xhex
    inter := [ [key*] xhex ]
-   response: names L groups L includes L src L pdb L gro L itp L -/
+   response: names L groups L includes L src L pdb L gro L itp L
+   hist <dedup> [ [ mol* ]* ]  ->  the same per system, joined by ' | ' -/
 
 def valOf (t : Tok) : Option Val :=
   match t with
@@ -70,6 +71,11 @@ def encRecs (l : List (List Rec)) : String := encList (l.map fun rs => encList (
 def encNats (l : List Nat) : String := encList (l.map encNat)
 def encPairs (l : List (Nat × Nat)) : String := encList (l.map fun p => encList [encNat p.1, encNat p.2])
 
+def encSysOut (o : SysOut) : String :=
+  "names " ++ encNats o.names ++ " groups " ++ encPairs o.groups
+    ++ " includes " ++ encNats o.includes ++ " src " ++ encPairs o.src
+    ++ " pdb " ++ encRecs o.pdb ++ " gro " ++ encRecs o.gro ++ " itp " ++ encRecs o.itp
+
 def handle (_ : Unit) (toks : List Tok) : Unit × String :=
   let r : Option String :=
     match toks with
@@ -81,6 +87,10 @@ def handle (_ : Unit) (toks : List Tok) : Unit × String :=
         pure ("names " ++ encNats o.names ++ " groups " ++ encPairs o.groups
               ++ " includes " ++ encNats o.includes ++ " src " ++ encPairs o.src
               ++ " pdb " ++ encRecs o.pdb ++ " gro " ++ encRecs o.gro ++ " itp " ++ encRecs o.itp)
+    | [Tok.str "hist", d, ss] => do
+        let dedup := (← d.nat?) != 0
+        let syss ← (← ss.list?).mapM (fun t => do (← t.list?).mapM molOf)
+        pure (" | ".intercalate ((historyOut npClose dedup syss).map encSysOut))
     | [Tok.str "sorted", ns] => do
         let nodes ← (← ns.list?).mapM atomOf
         pure (encList ((sortedNodes nodes).map fun a => encInt a.key))
